@@ -453,6 +453,8 @@ pub struct FaultPlan {
     /// Indices (in order of mutating operations: set/remove/commit) that fail.
     pub fail_ops: Vec<u64>,
     pub fail_all: bool,
+    /// Keys whose every set / remove fails (a backend that cannot write one particular entry).
+    pub fail_keys: Vec<String>,
 }
 
 #[derive(Default)]
@@ -478,6 +480,10 @@ impl StorageState {
         let i = self.mut_ops;
         self.mut_ops += 1;
         self.fault.fail_all || self.fault.fail_ops.contains(&i)
+    }
+    pub fn next_key_op_fails(&mut self, key: &str) -> bool {
+        let f = self.next_op_fails();
+        f || self.fault.fail_keys.iter().any(|k| k == key)
     }
     pub fn apply_commit(&mut self) {
         let pend = std::mem::take(&mut self.pending);
@@ -510,10 +516,13 @@ pub struct TimingSpec {
     pub kind: TimeKind,
     pub offset_s: u64,
     pub min_wait_s: Option<u64>,
+    /// Answer exactly what the previous question was answered (a policy computing "last check + interval"
+    /// returns the same instant until something changes); falls back to the spec for the first question.
+    pub same_as_previous: bool,
 }
 impl Default for TimingSpec {
     fn default() -> Self {
-        TimingSpec { kind: TimeKind::Both, offset_s: 3600, min_wait_s: None }
+        TimingSpec { kind: TimeKind::Both, offset_s: 3600, min_wait_s: None, same_as_previous: false }
     }
 }
 
@@ -590,6 +599,8 @@ pub struct DocSpec {
     /// None: no daystart; Some(None): daystart without elapsed_days; Some(Some(n)).
     pub daystart: Option<Option<u32>>,
     pub apps: Vec<DocApp>,
+    /// Benign framing of the rendered bytes: bit 0 = XSSI guard `)]}'\n` in front, bit 1 = trailing whitespace.
+    pub wrap: u8,
 }
 
 #[derive(Clone, Debug, PartialEq)]
@@ -734,6 +745,7 @@ pub struct World {
     pub crashed: bool,
     // counters for script lookup
     pub n_next: usize,
+    pub last_timing: Option<(Pct, Option<u64>)>,
     pub n_allowed: usize,
     pub reboot_allowed_calls: BTreeMap<usize, usize>,
     pub n_http: usize,
@@ -772,6 +784,7 @@ impl World {
             crash_at: None,
             crashed: false,
             n_next: 0,
+            last_timing: None,
             n_allowed: 0,
             reboot_allowed_calls: BTreeMap::new(),
             n_http: 0,
